@@ -651,7 +651,7 @@ cd {ROOT}
         self.__wasDownloadTried[step.getWorkspacePath()] = True
 
     def _clearDownloadTried(self):
-        self.__downloadDisposition = {}
+        self.__wasDownloadTried = {}
 
     def _constructDir(self, step, label):
         created = False
